@@ -713,10 +713,20 @@ def _mono_nonneg(m):
     for a, e in m:
         if _atom_nonneg(a):
             continue
-        if isinstance(e, int) and e % 2 == 0:
+        if isinstance(e, int) and e % 2 == 0 and atom_is_real(a):
             continue
         return False
     return True
+
+
+def poly_pos(p):
+    """non-negative terms only, at least one of them strictly positive: p > 0"""
+    return bool(p.t) and poly_nonneg(p) and any(all(_atom_pos(a) and (e > 0 or True) for a, e in m) for m in p.t)
+
+
+def poly_nonneg(p):
+    """every term is a positive multiple of a product of non-negative factors (sufficient, not necessary)"""
+    return all(c.im == 0 and c.re > 0 and _mono_nonneg(m) for m, c in p.t.items())
 
 
 def rpow(p, e):
@@ -1026,6 +1036,16 @@ def ind(op, lhs, rhs):
         if c0_.im == 0 and all(_atom_pos(a) for a, _ in m0):
             v = {"le": c0_.re <= 0, "lt": c0_.re < 0, "eq": False}[op]
             return Poly.const(1 if v else 0)
+    if poly_pos(d):  # lhs - rhs > 0 always
+        return Poly()
+    if poly_pos(-d):  # lhs - rhs < 0 always
+        return Poly() if op == "eq" else Poly.const(1)
+    if op in ("lt", "le"):
+        # comparisons of a sign-definite difference reduce to (in)equality with zero
+        if poly_nonneg(d):  # lhs - rhs >= 0 always
+            return Poly() if op == "lt" else ind("eq", d, Poly())
+        if poly_nonneg(-d):  # lhs - rhs <= 0 always
+            return Poly.const(1) if op == "le" else Poly.const(1) - ind("eq", d, Poly())
     if op == "eq":
         # canonical orientation: d == 0 with d primitive and without factors known to be non-zero
         if len(d.t) > 1:
